@@ -15,7 +15,6 @@ package tsrc
 // of C08/C09 are keyed by.
 
 import (
-	"fmt"
 	"sort"
 	"strings"
 	"sync"
@@ -25,7 +24,7 @@ import (
 // Helpers are appended so that the files compile on their own.
 const TestSig = "t(s string, b bool, vs []string, at templ.Attributes)"
 
-const Helpers = "templ c() {\n\t<b>c</b>\n}\n\ntempl w() {\n\t<u>{ children... }</u>\n}\n\nfunc f(s string) string { return s }\n\nfunc g(s string) (string, error) { return s, nil }\n"
+const Helpers = "templ c() {\n\t<b>c</b>\n}\n\ntempl w() {\n\t<u>\n\t\t{ children... }\n\t</u>\n}\n\nfunc f(s string) string { return s }\n\nfunc g(s string) (string, error) { return s, nil }\n"
 
 // LeafKinds is the node-kind alphabet of the matrix, in canonical spelling.
 var LeafKinds = []struct {
@@ -56,19 +55,19 @@ var LeafKinds = []struct {
 	{"doctype", "<!DOCTYPE html>"},
 }
 
-// Contexts are the parent contexts of the matrix: Open + body + Close, where
-// the body is lead-whitespace, nodes, trail-whitespace.
+// Contexts are the parent contexts of the matrix: Open + lead + nodes + trail
+// + Close. In brace contexts Open ends with the newline the grammar requires.
 var Contexts = []struct {
 	Name, Open, Close string
-	Lead, Trail       string // default whitespace after Open / before Close
+	Trail             string // whitespace before Close in the enumerated (pretty) spelling of pairs
 }{
-	{"top", "", "", "", "\n"},
-	{"div", "<div>", "</div>\n", "", ""},
-	{"span", "<span>", "</span>\n", "", ""},
-	{"if", "if b {\n", "}\n", "", "\n"},
-	{"for", "for _, v := range vs {\n", "}\n", "", "\n"},
-	{"case", "switch s {\ncase \"a\":\n", "}\n", "", "\n"},
-	{"call", "@w() {\n", "}\n", "", "\n"},
+	{"div", "<div>", "</div>", ""},
+	{"span", "<span>", "</span>", ""},
+	{"if", "if b {\n", "}", "\n"},
+	{"for", "for _, v := range vs {\n", "}", "\n"},
+	{"case", "switch s {\ncase \"a\":\n", "}", "\n"},
+	{"call", "@w() {", "}", "\n"},
+	{"top", "", "", "\n"},
 }
 
 var sepNames = map[string]string{"": "none", " ": "space", "\n": "newline"}
@@ -76,7 +75,7 @@ var Seps = []string{"", " ", "\n"}
 
 // Cell is one enumerated program.
 type Cell struct {
-	Name string // e.g. "ctx=if a=htmlcomment sep=none b=text" or "cell=attr-const-dq-amp-lt"
+	Name string // e.g. "ctx=if a=htmlcomment sep=none b=text trail=newline" or "cell=attr-const-dq-amp-lt"
 	Body string // body text of templ t
 	Src  string // full file
 }
@@ -91,40 +90,147 @@ func BareFileOf(body string) string {
 	return "package main\n\ntempl t() {\n" + body + "}\n"
 }
 
-// Matrix enumerates the adjacency matrix. Texts that occur twice (e.g. a
-// go-line comment always ends its line) keep the first name.
+// MatrixName parses a canonical body text as a matrix cell
+// (ctx, lead, a, [sep, b], trail) and names it; "" if it is not one. Whitespace
+// defaults to none and is named only when present.
+func MatrixName(body string) string {
+	isSep := func(s string) bool { return s == "" || s == " " || s == "\n" }
+	for _, cx := range Contexts {
+		if !strings.HasPrefix(body, cx.Open) || !strings.HasSuffix(body, cx.Close) || len(body) < len(cx.Open)+len(cx.Close) {
+			continue
+		}
+		inner := body[len(cx.Open) : len(body)-len(cx.Close)]
+		for _, lead := range Seps {
+			if !strings.HasPrefix(inner, lead) {
+				continue
+			}
+			rest := inner[len(lead):]
+			for _, a := range LeafKinds {
+				if !strings.HasPrefix(rest, a.Text) {
+					continue
+				}
+				r2 := rest[len(a.Text):]
+				name := "ctx=" + cx.Name
+				if lead != "" {
+					name += " lead=" + sepNames[lead]
+				}
+				name += " a=" + a.Name
+				if isSep(r2) {
+					if r2 != "" {
+						name += " trail=" + sepNames[r2]
+					}
+					return name
+				}
+				for _, sep := range Seps {
+					if !strings.HasPrefix(r2, sep) {
+						continue
+					}
+					for _, b := range LeafKinds {
+						if !strings.HasPrefix(r2[len(sep):], b.Text) {
+							continue
+						}
+						r3 := r2[len(sep)+len(b.Text):]
+						if !isSep(r3) {
+							continue
+						}
+						name += " sep=" + sepNames[sep] + " b=" + b.Name
+						if r3 != "" {
+							name += " trail=" + sepNames[r3]
+						}
+						return name
+					}
+				}
+			}
+		}
+	}
+	return ""
+}
+
+// MatrixBody is the inverse of MatrixName.
+func MatrixBody(name string) (string, bool) {
+	f := map[string]string{}
+	for _, kv := range strings.Fields(name) {
+		k, v, ok := strings.Cut(kv, "=")
+		if !ok {
+			return "", false
+		}
+		f[k] = v
+	}
+	sep := func(n string) (string, bool) {
+		for s, sn := range sepNames {
+			if sn == n || (n == "" && sn == "none") {
+				return s, true
+			}
+		}
+		return "", false
+	}
+	kind := func(n string) (string, bool) {
+		for _, k := range LeafKinds {
+			if k.Name == n {
+				return k.Text, true
+			}
+		}
+		return "", false
+	}
+	for _, cx := range Contexts {
+		if cx.Name != f["ctx"] {
+			continue
+		}
+		lead, ok1 := sep(f["lead"])
+		a, ok2 := kind(f["a"])
+		trail, ok3 := sep(f["trail"])
+		if !ok1 || !ok2 || !ok3 {
+			return "", false
+		}
+		body := cx.Open + lead + a
+		if bn, has := f["b"]; has {
+			b, ok4 := kind(bn)
+			sp, ok5 := sep(f["sep"])
+			if !ok4 || !ok5 {
+				return "", false
+			}
+			body += sp + b
+		}
+		body += trail + cx.Close
+		if MatrixName(body) != name {
+			return "", false
+		}
+		return body, true
+	}
+	return "", false
+}
+
+// Matrix enumerates the adjacency matrix: every kind alone in every context
+// with every lead/trail whitespace, and every pair of kinds with every
+// separator in every context (trail as people write it: newline before a
+// closing brace, nothing before a closing tag). Texts that occur twice keep
+// the first name.
 func Matrix() []Cell {
 	var cells []Cell
 	seen := map[string]bool{}
-	add := func(name, body string) {
+	add := func(body string) {
 		if seen[body] {
 			return
 		}
 		seen[body] = true
+		name := MatrixName(body)
+		if name == "" {
+			panic("tsrc: matrix body has no name: " + body)
+		}
 		cells = append(cells, Cell{Name: name, Body: body, Src: FileOf(body)})
 	}
 	for _, cx := range Contexts {
-		// singles with every lead/trail
 		for _, a := range LeafKinds {
 			for _, lead := range Seps {
 				for _, trail := range Seps {
-					name := "ctx=" + cx.Name + " a=" + a.Name
-					if lead != cx.Lead {
-						name += " lead=" + sepNames[lead]
-					}
-					if trail != cx.Trail {
-						name += " trail=" + sepNames[trail]
-					}
-					add(name, cx.Open+lead+a.Text+trail+cx.Close)
+					add(cx.Open + lead + a.Text + trail + cx.Close)
 				}
 			}
 		}
-		// pairs
 		for _, a := range LeafKinds {
 			for _, sep := range Seps {
 				for _, b := range LeafKinds {
-					name := fmt.Sprintf("ctx=%s a=%s sep=%s b=%s", cx.Name, a.Name, sepNames[sep], b.Name)
-					add(name, cx.Open+cx.Lead+a.Text+sep+b.Text+cx.Trail+cx.Close)
+					add(cx.Open + a.Text + sep + b.Text + cx.Trail + cx.Close)
 				}
 			}
 		}
@@ -513,8 +619,16 @@ func buildIndex() {
 		if k == "" {
 			k = "FILE:" + c.Src
 		}
+		if !strings.HasPrefix(c.Name, "cell=") {
+			continue
+		}
 		if _, dup := cellIndex[k]; !dup {
 			cellIndex[k] = c.Name
+		}
+		if t := strings.TrimRight(k, "\n"); t != k {
+			if _, dup := cellIndex[t]; !dup {
+				cellIndex[t] = c.Name
+			}
 		}
 	}
 }
@@ -527,6 +641,9 @@ func CellName(src string) string {
 		return n
 	}
 	if body, ok := BodyOf(src); ok {
+		if n := MatrixName(body); n != "" {
+			return n
+		}
 		return cellIndex[body]
 	}
 	return ""
